@@ -139,6 +139,10 @@ def build(ch, with_options=True):
     if depth >= 3:
         d.add_cell(HCell(51, -25, mat=2, rho='-1.0', u=3)); d.add_cell(HCell(52, 25, mat=1, rho='-2.7', u=3))
     d.mats = {1: '13027 1', 2: '26056 1', 3: '1001 2 8016 1'}
+    kwo = ch.choose('keyword-order', [None, ['imp', 'trcl', 'fill', 'u'], ['fill', 'imp', 'u', 'trcl'],
+                                      ['trcl', 'u', 'imp', 'fill']])
+    for c in d.hcells:
+        c.kw_order = kwo
     d.options = list(opts)
     # cell 11 moved by a TRCL may overlap cell 10: the deck is then ill-formed; reject
     d.trcl11 = trcl11
